@@ -326,9 +326,10 @@ Expected(e) ==
     [] e.op \in {"QKToExt", "QKToSp"} -> Exp_QKToExt(e)
     [] e.op = "ZToKey"               -> Band_ZToKey(e)
     [] e.op = "KeyToZ"               -> Band_KeyToZ(e)
-    [] e.op = "ExtToQKAlt"           -> Exp_ExtToQKAlt(e)
-    [] e.op = "TilesToExt"           -> Exp_TilesToExt(e)
-    [] e.op = "TilesToSp"            -> Exp_TilesToSp(e)
+    [] e.op = "ExtToQKAlt"           -> IF \E i \in 1..Len(e.a.per) : e.a.per[i][1] # "ok" THEN "error, no partial result"
+                                        ELSE Exp_ExtToQKAlt(e)
+    [] e.op = "TilesToExt"           -> IF TilesValid(e) THEN Exp_TilesToExt(e) ELSE "error, no partial result"
+    [] e.op = "TilesToSp"            -> IF TilesValid(e) THEN Exp_TilesToSp(e) ELSE "error, no partial result"
     [] e.op = "BitFwd"               -> Exp_BitFwd(e)
     [] e.op = "BitBack"              -> Exp_BitBack(e)
     [] OTHER -> "no-spec-operator"
